@@ -77,12 +77,27 @@ static void h_op(void)
 
   if (skipping) { h_out("skipped-after-%d-hangs", MAX_HANGS); return; }
   if (!strcmp(op, "new")) {
+    /* ow=0: allow_overwrite FALSE; pre=1/2/3: the index file / the primary / the secondary tmp file exists beforehand */
+    int ow = (int) h_argi("ow", 1), pre = (int) h_argi("pre", 0);
     if (NS)  { esl_newssi_Close(NS); NS = NULL; }
     if (SSI) { esl_ssi_Close(SSI);   SSI = NULL; }
     cleanup_files();
-    status = esl_newssi_Open(IDX, TRUE, &NS);
+    if (pre) { FILE *fp = fopen(pre == 1 ? IDX : pre == 2 ? IDX ".1" : IDX ".2", "w"); fputs("old", fp); fclose(fp); }
+    status = esl_newssi_Open(IDX, ow, &NS);
     if (status != eslOK) NS = NULL;
-    h_out("%s", h_status(status));
+    if (h_arg("ow")) {
+      size_t n = 0; unsigned char *b = slurp(IDX, &n);
+      h_out("%s file=%d n=%zu tmp=%d", h_status(status), exists(IDX), n, exists(IDX ".1") || exists(IDX ".2"));
+      free(b);
+    } else h_out("%s", h_status(status));
+  }
+  else if (!strcmp(op, "closens")) {            /* esl_newssi_Close without Write */
+    size_t n = 0; unsigned char *b;
+    if (!NS) { h_out("bad-op"); return; }
+    esl_newssi_Close(NS); NS = NULL;
+    b = slurp(IDX, &n);
+    h_out("ok file=%d n=%zu tmp=%d", exists(IDX), n, exists(IDX ".1") || exists(IDX ".2"));
+    free(b);
   }
   else if (!strcmp(op, "addfile")) {
     int64_t n; unsigned char *name; uint16_t fh = 0;
